@@ -132,7 +132,20 @@ def run(ctx):
         key = lambda e: json.dumps({k: e.get(k) for k in ("ev", "u", "cls", "unit", "orig", "e", "scaled")}, sort_keys=True)
         have = set(key(e) for e in ev2)
         if any(key(b["event"]) not in have for b in bad):
-            raise vlib.Infra("rejected recorded events did not reproduce on a second recording - no verdict")
+            # not the same events: a fault that depends on something unordered (map iteration, scheduling)
+            # moves around.  It is a verdict only if the second recording is rejected too, by events of
+            # the same class; otherwise nothing is concluded.
+            ok2, hwm2, tr2 = ctx.trace_validate("Units_trace.tla", "Units_trace.cfg", tp2, timeout=1800)
+            rej2 = sorted(set(o["line"] for o in tr2.printed_json("reject")))
+            if tr2.error or hwm2 < len(ev2) or not rej2:
+                raise vlib.Infra("rejected recorded events did not reproduce on a second recording - no verdict")
+            cls2 = set("panic" if ev2[ln - 1].get("panic") else "trace-%s-mismatch" % ev2[ln - 1]["ev"] for ln in rej2)
+            bad = [dict(b, detail=b["detail"] + " (not deterministic: a second recording was rejected at %d other events of the same class)" % len(rej2))
+                   for b in bad if b["signature"] in cls2]
+            if not bad:
+                raise vlib.Infra("rejected recorded events did not reproduce on a second recording - no verdict")
+            for b in bad:
+                b["signature"] += "-unstable"
         ctx.report(bad, "trace validation of recorded Tidy/Reader observations")
     ctx.cov["traces_validated_against_impl"] += len(events)
     ctx.cov["evaluations"] += sum(e.get("calls", 1) for e in events)
